@@ -68,7 +68,7 @@ def key(i):
     return '6b%02x' % (0x30 + i)
 
 
-def run_crash_workload(ctx, steps, tag, manual=0, power_loss=True, two_ks=False):
+def run_crash_workload(ctx, steps, tag, manual=0, power_loss=True, two_ks=False, kind='plain'):
     """steps: 'w' insert next key into a · 'v' insert next key into b · 'b' batch of two next keys (over a and b when two_ks) · 'c' clear a ·
     'r' rotate a's memtable and run the worker (journal rotation is forced at that flush tick) · 'p:<mode>' persist · 'x' crash point.
     Returns (violated, replay_path, detail).  Oracle: at every crash point the recovered content of all keyspaces equals the state after some PREFIX
@@ -76,7 +76,7 @@ def run_crash_workload(ctx, steps, tag, manual=0, power_loss=True, two_ks=False)
     every acknowledged operation (process crash, automatic persist) / every operation before the last persist (manual)."""
     two_ks = two_ks or any(s_ in ('v',) for s_ in steps)
     rot = any(s_ == 'r' for s_ in steps)
-    L = ['dir $DIR/db', f'open workers=0 manual_persist={manual}'] + (['rotation_threshold 0'] if rot else []) + [f'ks a manual={manual}'] + ([f'ks b manual={manual}'] if two_ks else [])
+    L = ['dir $DIR/db', f'kind {kind}', f'open workers=0 manual_persist={manual}'] + (['rotation_threshold 0'] if rot else []) + [f'ks a manual={manual}'] + ([f'ks b manual={manual}'] if two_ks else [])
     n = 0; mark = 0
     states = [{'a': {}, 'b': {}}]        # states[i] = content after i acknowledged units
     descr = []
@@ -119,7 +119,7 @@ def run_crash_workload(ctx, steps, tag, manual=0, power_loss=True, two_ks=False)
             flushed = len(states) - 1; synced = len(states) - 1
         elif s.startswith('p:'):
             mode = s[2:]
-            L.append(f'persist {mode}')
+            L.append(f'{"persist" if kind == "plain" else "tpersist"} {mode}')
             flushed = len(states) - 1
             if mode in ('syncdata', 'syncall'):
                 synced = len(states) - 1
